@@ -41,7 +41,7 @@ MANIFEST = dict(
     technique="Lean 4 proofs over a byte-level path algebra and an abstract file system + differential correspondence check on real "
               "temporary directories with fault enumeration (every choice of one missing listed file)",
 )
-PROP_FILES = ["HtmlVerif/Props/C12.lean", "HtmlVerif/Props/Consts.lean"]
+PROP_FILES = ["HtmlVerif/Props/C12.lean", "HtmlVerif/Props/ConstsDeps.lean"]
 
 V = fsops.VROOT
 
